@@ -1,5 +1,5 @@
 """C16 — tasks are offered and executed only where their requirements hold."""
-import json, random
+import re, json, random
 from . import common, projgen, projcheck, projrun, clirun
 
 PROF = projgen.profile(n_builders=(1, 3), n_apps=(1, 3), p_tasks=0.75, p_task_fail=0.3, p_cli_builders=0.0, p_cli_apps=0.0,
@@ -75,6 +75,14 @@ def judge(chk, sc, step):
     nl = [l for l in sp if l.startswith("N:")]
     sl = [l for l in sp if l.startswith("S:")]
     nt = False
+    # a generation that fails (one build reports an error) may still have dumped the builds configured before it, in parallel:
+    # nothing is spawned then, and the task oracles below do not apply
+    gen_failed = rc == 1 and not sp and re.search(r'laze: error: builder "[^"]*": binary "[^"]*":', step.get("stderr") or "") is not None
+    if gen_failed:
+        chk.count("generation-failed")
+        if m is not None and "ok" in m:
+            chk.fail_disagree(f"{inv}: generation fails ({step['stderr'][-120:]!r}) but the model runs {json.dumps(m)[:120]}", {"scenario": sc, "step": step})
+        return
     if rc in (0, 1) and step["dump"]:
         blds = [b for b in step["dump"] if b["decision"] == "built" and selected(inv["args"], b["builder"], b["app"])]
         defining = [b for b in blds if any(x[0] == t for x in b["tasks"])]
